@@ -84,6 +84,19 @@ theorem C04_counterexample_timestamp_generates :
     let t : Task := { mk [120] .timestamp false 1 with generates := [⟨false, [1]⟩], cmds := [⟨[(1, [9])]⟩] }
     Bad Cfg.fixed (pj [t]) [w0, run 0 10, .op (.delete 1)] 0 t := by decide
 
+/-- (new) method timestamp: a task that never ran is up to date as soon as a generates file is
+newer than its sources (no marker yet: the generates' mtimes alone decide). -/
+theorem C04_counterexample_timestamp_never_ran :
+    let t : Task := { mk [120] .timestamp false 1 with generates := [⟨false, [1]⟩], cmds := [⟨[(1, [9])]⟩] }
+    Bad Cfg.fixed (pj [t]) [w0, .op (.write 1 [8] 7)] 0 t := by decide
+
+/-- (new, same root as 5) every check — also one ending in "up to date" — moves the marker to the
+time of the check: a source whose mtime lies between the last run (10) and the last check (20)
+is never rebuilt. -/
+theorem C04_counterexample_timestamp_marker_moves :
+    Bad Cfg.fixed (pj [mk [120] .timestamp false 1]) [w0, run 0 10, run 0 20, .op (.write 0 [2] 20)] 0
+      (mk [120] .timestamp false 1) := by decide
+
 theorem C04_full_false : ¬ C04_full Cfg.fixed := by
   intro h
   have hb := C04_counterexample_prompt
